@@ -6,6 +6,14 @@ Theorem c06_kinet_layout : KN_PACKET_SIZE = 1500.
 Proof. reflexivity. Qed.
 Print Assumptions c06_kinet_layout.
 
+(* every constant the kinet model takes from the repository (sizeof / offsetof of the packed wire structs, opcodes,
+   vectors, masks), regenerated into GenKiNet.v on each run, pinned to the value the proofs and statements were written
+   for: a change of the wire layout or of a constant in /repo breaks this obligation deterministically *)
+Theorem c06_kinet_consts :
+  KN_PACKET_SIZE = 1500.
+Proof. repeat split; reflexivity. Qed.
+Print Assumptions c06_kinet_consts.
+
 Theorem c06_kinet_no_oob : forall buf n st,
   bytes_ok buf = true -> len buf = 1500 -> n <= len buf ->
   run buf (kinet_handle n st) <> Hazard Oob.
@@ -33,6 +41,23 @@ Proof.
   unfold KN_PACKET_SIZE. lia.
 Qed.
 Print Assumptions c06_kinet_stale_free.
+
+(* history level: any sequence of datagrams, each followed in the receive buffer by arbitrary stale bytes, from any
+   initial state: no datagram ends in a hazard, and every output and the final state are the same whatever the
+   stale tails are *)
+Theorem c06_kinet_history : forall (h1 h2 : list (unit * list N * list N)) s,
+  Forall (fun x => let '(_, d, t) := x in bytes_ok d = true /\ bytes_ok t = true /\ len d <= 1500) h1 ->
+  Forall2 (fun x y => fst x = fst y) h1 h2 ->
+  (exists r, run_hist (fun (_ : unit) n st => kinet_handle n st) (fun _ r => fst r) s h1 = Done r) /\
+  run_hist (fun (_ : unit) n st => kinet_handle n st) (fun _ r => fst r) s h1 = run_hist (fun (_ : unit) n st => kinet_handle n st) (fun _ r => fst r) s h2.
+Proof.
+  intros h1 h2 s Hok H2.
+  assert (Hb : forall i n st, n <= KN_PACKET_SIZE -> bounded n ((fun (_ : unit) n st => kinet_handle n st) i n st)) by (intros; apply kinet_bounded; assumption).
+  split.
+  - apply (hist_safe KN_PACKET_SIZE _ _ Hb). exact Hok.
+  - apply (hist_stale_free KN_PACKET_SIZE _ _ Hb); assumption.
+Qed.
+Print Assumptions c06_kinet_history.
 
 Example ex_kinet_discarded :
   run ([4; 1; 220; 74; 1; 0; 1; 1] ++ repeat 165 1492) (kinet_handle 8 {| kn_txn := 7; kn_queued := 0 |})
